@@ -325,7 +325,8 @@ def judge_gc(ctx, cases, obs):
 def run25(ctx):
     ctx.rule = ("one case per labelled DAG x hidden-sub-target assignment x role assignment {lib,bin,test,tolib,keep} enumerated by TLC "
                 "from GraphQueries.tla (SpecGc); each run through the real gc targetsToRemove 6 times (marked targets given as kept "
-                "label / gc.keep entry / subinclude; conservative off/on) with one shared source file per pair of targets; "
+                "label / gc.keep entry / subinclude; conservative off/on) with one shared source file per pair of targets; graphs "
+                "with one require/provide entry (declared and resolved dependencies differ; MustKeep closes over both); "
                 "non-trivial = MustKeep non-empty and >=1 edge; distinct by (hidden assignment, edges, roles)")
     ctx.assumptions = [
         "roots = non-test binaries, marked targets (kept label, gc.keep entry, subinclude) and tests one of whose rule-level (public) "
@@ -344,6 +345,9 @@ def run25(ctx):
             # gc_sibling labels (one labelled target, no hidden sub-targets), a sixth of the DAGs
             cases += gen(ctx, "GEN_GraphGc_3sib.cfg", n=3, maxhidden=0, provides=False, upper=False, emit="all", spec="SpecGc",
                          invs=GINV, k=6, i=ctx.seed % 6, siblings=True)
+            # one require/provide entry (no hidden sub-targets), a third of the DAGs: declared and resolved dependencies differ
+            cases += gen(ctx, "GEN_GraphGc_3prov.cfg", n=3, maxhidden=0, provides=True, upper=False, emit="all", spec="SpecGc",
+                         invs=GINV, k=3, i=ctx.seed % 3)
         else:
             cases = gen(ctx, "GEN_GraphGc_3u.cfg", n=3, maxhidden=3, provides=False, upper=True, emit="all", spec="SpecGc", invs=GINV)
             k = 61
@@ -351,6 +355,8 @@ def run25(ctx):
                          invs=GINV, k=k, i=ctx.seed % k)
             cases += gen(ctx, "GEN_GraphGc_3sib.cfg", n=3, maxhidden=1, provides=False, upper=False, emit="all", spec="SpecGc",
                          invs=GINV, siblings=True, k=3, i=ctx.seed % 3)
+            cases += gen(ctx, "GEN_GraphGc_3prov.cfg", n=3, maxhidden=1, provides=True, upper=False, emit="all", spec="SpecGc",
+                         invs=GINV)
         ctx.exhaustive = True
     for i, c in enumerate(cases):
         c["id"] = i
@@ -510,7 +516,7 @@ def e2e_queries(ctx, cases, limit):
 
 def e2e_gc(ctx, cases, limit):
     """A sample of the cases through `plz gc --dry_run` (kept label and gc.keep; subincludes only in-process)."""
-    ok = [c for c in cases if all(not (c["par"][i] and c["role"][i] == "test") for i in range(c["n"]))]
+    ok = [c for c in cases if all(not (c["par"][i] and c["role"][i] == "test") for i in range(c["n"])) and not any(c.get("prov") or [])]
     pick = [c for c in ok if c["cls"] == "test-roots" and any(c["par"])][:limit // 2]
     pick += [c for c in ok if c["cls"] == "hidden-kept" and "tolib" in c["role"]][:limit // 4]
     pick += [c for c in ok if any(c.get("sib") or [])][:limit - len(pick)]
